@@ -71,6 +71,8 @@ def judge(chk, obs, dbs, tag, asis=False):
     lits = relgen.lits_for([o['ast'] for o in obs])
     if asis:
         lits['$asis'] = 1
+        if asis == 'cross+not':
+            lits['$asisnot'] = 1
     encoded = [relgen.enc_db(d['data']) for d in dbs]
     envs, sizes = [], []
     for n, start in enumerate(range(0, len(obs), BATCH)):
@@ -186,11 +188,10 @@ def classify(ast, res, crash, asis_ok):
         return None
     if set_reference_selected_whole(ast):
         return F_SETFEAT
-    if asis_ok:
-        if 'not' in ops:
-            return F_NOT
-        if 'cross' in relgen.join_kinds(ast):
-            return F_CROSS
+    if asis_ok == 'cross+not' and 'not' in ops:
+        return F_NOT
+    if asis_ok and 'cross' in relgen.join_kinds(ast):
+        return F_CROSS
     return None
 
 
@@ -268,19 +269,23 @@ def parser_level(chk):
     # ---- second pass: are wrong rows what the as-is rendering denotes? (attribution to listed findings only)
     wrong = [(oi, ri, ci) for oi, ri, ci in rejected if obs[oi]['runs'][ri]['outs'][ci]['res'] == 'ok']
     asis_ok = set()
+    asis_variant = {}
     if wrong:
         sub = [{'ast': obs[oi]['ast'], 'runs': [{'db': obs[oi]['runs'][ri]['db'], 'outs': [obs[oi]['runs'][ri]['outs'][ci]]}]}
                for oi, ri, ci in wrong]
-        for key, (_, codes, _) in zip(wrong, judge(chk, sub, dbs, 'asis', asis=True)):
-            if codes[0][0] == 1:
-                asis_ok.add(key)
+        # two as-is renderings: cross join alone, cross join together with the python-not rendering of Not
+        for variant in ('cross', 'cross+not'):
+            for key, (_, codes, _) in zip(wrong, judge(chk, sub, dbs, 'asis-' + variant.replace('+', '-'), asis=variant)):
+                if codes[0][0] == 1:
+                    asis_ok.add(key)
+                    asis_variant.setdefault(key, variant)
     drift = collections.Counter()
     for oi, ri, ci in rejected:
         o, run = obs[oi], obs[oi]['runs'][ri]
         out = run['outs'][ci]
         engines = sorted(e for e, k in run['by'].items() if k == ci)
         crash = verdicts[oi][2]
-        finding = classify(o['ast'], out['res'], crash, (oi, ri, ci) in asis_ok)
+        finding = classify(o['ast'], out['res'], crash, asis_variant.get((oi, ri, ci)))
         what = (f'{out["res"]} on {"/".join(engines)}' if out['res'] != 'ok' else f'wrong rows on {"/".join(engines)}') + \
             f' for {describe(o["ast"])}'
         if finding is None or finding not in chk.known:
